@@ -197,13 +197,24 @@ class ConvexPolygon(Polygon):
         return Circle(radius, self.center)
 
     def distance_to_surface(self, angles):  # noqa: D102
+        return self._distance_to_surface_from(self.center, angles)
+
+    def _distance_to_surface_from(self, center, angles):
+        """Compute the distance from ``center`` to the surface at the given angles."""
         # Bring the angles into the range for testing (also handles an
         # np.asarray for us).
         angles = np.mod(angles, 2 * np.pi)
         num_verts = len(self.vertices)
 
-        # Rearrange the verts so that we start with the lowest angle
-        verts, _ = _align_points_by_normal(self.normal, self.vertices - self.center)
+        # Angles are measured counterclockwise about the +z direction, so the
+        # polygon is rotated into the xy-plane with its normal pointing up. If the
+        # stored normal points down, the vertices run clockwise seen from +z and
+        # are reversed.
+        flip = self.normal[2] < 0
+        normal = -self.normal if flip else self.normal
+        verts, _ = _align_points_by_normal(normal, self.vertices - center)
+        if flip:
+            verts = verts[::-1]
         angles_to_vertices = np.arctan2(verts[:, 1], verts[:, 0])
         np.mod(angles_to_vertices, 2 * np.pi, out=angles_to_vertices)
 
